@@ -262,6 +262,39 @@ def r3_label_provenance(ctx):
             continue
         ctx.finding(f, d.node.ast, 'the recorded label list is bound from '
                     '%s, which is not a recognised source' % unparse(v)[:50])
+    # ... and the batch builder, which decides independently what to execute,
+    # must agree: a task whose app has no stored signature (app_sig_is_new)
+    # only *records* its sequence, so no SQL may be generated for it there
+    # either (model-less mutations such as SQLMutation survive the
+    # changed-model filter of get_app_pending_mutations).
+    from ..util import unit
+    bb = p.func(TASK, 'EvolveAppTask._build_batches')
+    gens = 0
+    for fn in unit(ctx, bb):
+        bg = ctx.cfg(fn)
+        tests = [t for t in bg.nodes if t.kind == 'test' and
+                 'app_sig_is_new' in unparse(t.ast)]
+        for n in bg.nodes:
+            for c in n.calls():
+                if call_name(c) not in ('get_app_pending_mutations',
+                                        'generate_mutations_info'):
+                    continue
+                gens += 1
+                if any(bg.guarded_by(n, t, 'F') for t in tests):
+                    ctx.ok(fn, '%s in the batch builder is skipped for apps '
+                           'without a stored signature' % call_name(c), c)
+                else:
+                    ctx.finding(fn, c, 'the batch builder calls %s for every '
+                                'task of the batch, including apps that are '
+                                'being installed for the first time '
+                                '(app_sig_is_new): their recorded-only '
+                                'sequence is turned into SQL (SQLMutation, '
+                                'RenameAppLabel survive the changed-model '
+                                'filter) and executed against the freshly '
+                                'created tables' % call_name(c),
+                                key='fresh-app-sql-in-batches:%s' %
+                                call_name(c))
+    ctx.floor('SQL generation calls in the batch builder', gens, 2)
     # the pending mutations actually run are the ones selected above
     gm = nodes_with_call(g, 'generate_mutations_info')
     if gm and all(c.args and unparse(c.args[0]) == 'pending_mutations'
